@@ -76,6 +76,16 @@ func (t *traceWriter) Break() {
 	}
 }
 
+// NewChunk starts a new chunk file (independent TLC verdict) at the next event.
+func (t *traceWriter) NewChunk() {
+	if t.f != nil {
+		t.w.Flush()
+		t.f.Close()
+		t.f = nil
+		t.chunk++
+	}
+}
+
 // Event appends one event line.
 func (t *traceWriter) Event(v interface{}) {
 	if t.f == nil {
